@@ -235,3 +235,21 @@ package httpgen
 
 //@ func (g *Generator) collectMessageFieldExamples(gf *protogen.GeneratedFile, message *protogen.Message, prefix string)
 //@   decreases spec.mdepth(message)
+
+// on-stack set of message types being expanded: a nested call sees a strictly larger set (finitely many full
+// names exist), and every call restores the set it was given
+//@ func (g *Generator) generateMockFieldAssignments(gf *protogen.GeneratedFile, message *protogen.Message, varName string, visiting map[string]bool)
+//@   requires message != nil
+//@   modifies *, visiting
+//@   decreases 2*spec.remainingB(visiting) + 1
+//@   ensures restored: forall s string :: (inDom(visiting, s) && visiting[s]) <==> (inDom(old(visiting), s) && old(visiting)[s])
+//@   ensures measure: spec.remainingB(visiting) == spec.remainingB(old(visiting))
+//@   loop 1 invariant forall s string :: (inDom(visiting, s) && visiting[s]) <==> (s == key || (inDom(old(visiting), s) && old(visiting)[s]))
+//@   loop 1 invariant spec.remainingB(visiting) < spec.remainingB(old(visiting))
+
+//@ func (g *Generator) generateMockMapFieldAssignment(gf *protogen.GeneratedFile, field *protogen.Field, varName string, visiting map[string]bool)
+//@   requires field != nil && field.Message != nil && field.Desc.IsMap()
+//@   modifies *, visiting
+//@   decreases 2*spec.remainingB(visiting) + 2
+//@   ensures restored: forall s string :: (inDom(visiting, s) && visiting[s]) <==> (inDom(old(visiting), s) && old(visiting)[s])
+//@   ensures measure: spec.remainingB(visiting) == spec.remainingB(old(visiting))
